@@ -3,7 +3,7 @@
    `-=` is `+=` of (-1)*e), the functor table used by the harness, and a small command interpreter that the
    extracted driver runs next to harness/c01_sparse.cpp.  Definitions only. *)
 From Coq Require Import ZArith List Bool Arith Lia.
-From SharkV Require Import ListAux C01SparseModel C01SparseMatModel C01SparseExpr.
+From SharkV Require Import ListAux C01SparseModel C01SparseMatModel C01SparseExpr C01BlockModel.
 Import ListNotations.
 Open Scope Z_scope.
 
@@ -166,6 +166,8 @@ Inductive scmd :=
 | CMKAssign (t s : nat) | CMKFun (f : sfun) (t s : nat)
 | CMOp (noalias : bool) (o : sop) (t s : nat)
 | CMScal (o : sop) (t : nat) (c : Z)
+| CMFill (id seed : nat)                     (* dense matrix: m(i,j) = ((7 i + 13 j + seed) mod 11) - 5 *)
+| CMBlk (f : option sfun) (t s : nat)        (* kernels::assign(dense matrix t, dense matrix s [, F]) *)
 | CXV (noalias : bool) (o : sop) (t : nat) (e : sxv)     (* vector target op= sparse vector expression over slots *)
 | CXM (noalias : bool) (o : sop) (t : nat) (rm : bool) (e : sxv).   (* matrix target op= expression over compressed
                                                                     matrices of orientation rm (SXRef = matrix slot) *)
@@ -213,6 +215,29 @@ Definition run_cmd (fx : bool) (s : sstore) (c : scmd) : sstore * (bool * nat) :
   | CMKFun f t src => (setm s t (km_fun (sf_app f) (sf_rzi f) (getm s t) (getm s src)), (false, t))
   | CMOp na o t src => (setm s t (m_op na o (getm s t) (getm s src)), (false, t))
   | CMScal o t c => (setm s t (m_scal o (getm s t) c), (false, t))
+  | CMFill id seed =>
+      (setm s id (match getm s id with
+                  | MD rt d =>
+                      let '(r, c) := if rt then (length d, length (nth 0 d [])) else (length (nth 0 d []), length d) in
+                      MD rt (lines_of_fmat rt r c (fun i j => Z.of_nat ((7 * i + 13 * j + seed) mod 11) - 5))
+                  | tm => tm
+                  end), (false, id))
+  | CMBlk fo t src =>
+      (setm s t (match getm s t, getm s src with
+                 | MD rt d, MD rs e =>
+                     let '(r, c) := if rt then (length d, length (nth 0 d [])) else (length (nth 0 d []), length d) in
+                     let mt := fmat_of_lines rt d in
+                     let me := fmat_of_lines rs e in
+                     let f := match fo with Some g => sf_app g | None => fun _ y => y end in
+                     let bs := match fo with Some _ => 16%nat | None => 8%nat end in
+                     let res :=
+                       if Bool.eqb rt rs then (fun i j => f (mt i j) (me i j))          (* same orientation: line by line *)
+                       else if rt then blk_kernel bs f r c me mt                        (* row_major <- column_major *)
+                       else (fun i j => blk_kernel bs f c r (fun a b => me b a) (fun a b => mt b a) j i)
+                                                        (* column_major target: kernels::assign transposes both *)
+                     in MD rt (lines_of_fmat rt r c res)
+                 | tm, _ => tm
+                 end), (false, t))
   | CXV na o t e =>
       let tv := getv s t in
       let n := match tv with VS v => sv_size v | VD d => length d end in
